@@ -2089,7 +2089,12 @@ class Measurement:
             return NotImplemented
 
         measurand = self.measurand * other.measurand
-        uncertainty = self._join_uncertainties(measurand, other)
+        uncertainty = math.sqrt(
+            _add(
+                _pow(_mul(self.uncertainty.magnitude, other.measurand.magnitude), 2),
+                _pow(_mul(self.measurand.magnitude, other.uncertainty.magnitude), 2),
+            )
+        )
         return Measurement(measurand, uncertainty)
 
     __rmul__ = __mul__
@@ -2102,27 +2107,19 @@ class Measurement:
             return NotImplemented
 
         measurand = self.measurand / other.measurand
-        uncertainty = self._join_uncertainties(measurand, other)
-        return Measurement(measurand, uncertainty)
-
-    def _join_uncertainties(self, measurand: Quantity, other: "Measurement") -> float:
-        return math.sqrt(
-            _mul(
-                _pow(measurand.magnitude, 2),
-                (
-                    _add(
-                        _div(
-                            _pow(self.uncertainty.magnitude, 2),
-                            _pow(self.measurand.magnitude, 2),
-                        ),
-                        _div(
-                            _pow(other.uncertainty.magnitude, 2),
-                            _pow(other.measurand.magnitude, 2),
-                        ),
-                    )
+        uncertainty = math.sqrt(
+            _add(
+                _pow(_div(self.uncertainty.magnitude, other.measurand.magnitude), 2),
+                _pow(
+                    _div(
+                        _mul(self.measurand.magnitude, other.uncertainty.magnitude),
+                        _pow(other.measurand.magnitude, 2),
+                    ),
+                    2,
                 ),
             )
         )
+        return Measurement(measurand, uncertainty)
 
     def __rtruediv__(self, other: Union["Measurement", Quantity]) -> "Measurement":
         if isinstance(other, Quantity):
